@@ -188,6 +188,20 @@ CHECKS["C11"] = dict(
     design="4 (C11), Appendix A.1",
     note="net.Pipe stands for the TCP byte stream (reliable, arbitrary segmentation); the kernel's TCP stack is not exercised by this check (C01 does).")
 
+CHECKS["C05"] = dict(
+    engine="agg",
+    technique="Lean 4 proof (refinement of the incremental aggregation to a declarative history-level specification, by induction over histories) + differential correspondence with adversarial counter magnitudes under a virtual clock",
+    text="Proved (Lemmas/Arith.lean, 900+ lines): for every history of one flow that respects the exporter contract, the model's aggregated "
+         "record equals the declarative reading of the property over the history - node_fields_conserved (per node: latest totals, sums of "
+         "deltas since the last reset mod 2^64, latest end time, throughput formula), end_time_latest, common_follows_latest, "
+         "reset_clears_deltas_and_throughput_only, other_keys_unaffected, one_flow_per_key (any op sequence), throughput_wraps (the uint64 guard "
+         "made visible). The real AggregationProcess is driven through its public API on histories over 2..6 five-tuples with counters up to "
+         "2^61 and near 2^64, resets, exports and inactive expiry; the model agrees on all of them (also on contract-violating ones, run for "
+         "diagnosis only) and the declarative specification Ipfix.C05.expected is evaluated on every dumped and exported record of the "
+         "implementation.",
+    design="4 (C05)",
+    note="fixed Antrea statistics configuration; httpVals (JSON merge) is outside the model and the configuration.")
+
 NOT_YET = {}
 
 
